@@ -31,7 +31,7 @@ size / character stress (notes/SIZE_STRESS.md; harness/size_c16.py): TLC scans a
 pattern / name; big sizes go through the replay legs with TLC's expectation for the ABSTRACT case, carried
 over by two stated arguments: (1) blocks -- every name symbol and every literal / escaped pattern symbol
 becomes marker + one shared pad string of length L-1, '?' becomes '?'*L, '*' stays: the verdict of the
-reference is the same for every L (TLC checks this itself for L = 2, 3: invariant BlockInvariance), which
+reference is the same for every L (TLC checks this itself for L = 3: invariant BlockInvariance), which
 gives single patterns of 79..4097+ characters (hyphenated words, dots, long runs, non-NFC sequences in the
 pad) and names up to 64 KiB; (2) fillers -- well-formed patterns starting with a literal no name starts
 with never match: lists of 1..200 patterns with blank-joined lengths on 72/78/80/256/4096 boundaries (the
@@ -78,7 +78,7 @@ from lts import LTS, skey, strip
 MANIFEST = dict(
     technique="TLA+ spec (Glob: recursive glob reference + regex-translation/alternation/anchor/match-discipline implementation layer; GlobCache: per-paragraph files_pattern cache machine incl. its error path; GlobMemo: process-wide histories of direct globs_to_re calls) model-checked by TLC over all pattern lists and names up to a bound; expected results for every (pattern list, name) and (document, name) emitted by TLC and replayed into FilesParagraph.matches / parsed paragraphs / find_files_paragraph; recorded histories validated by TLC (TraceGlob)",
     text="TLC enumerates every list of <= 2 patterns of length <= 2 over {a, *, ?, backslash, LF} against every name up to length 2 (thorough, with 'b', '/' and '.' added: 1 pattern x <= 3 with names <= 4, 2 x <= 2 with names <= 3, and 2 x <= 3 with names <= 3 over the 4 symbols a * ? backslash) and checks that the model of globs_to_re + fullmatch agrees with the recursive glob reference, that exactly the ill-formed lists raise, and that the find loop returns the last matching paragraph of every document of <= 3 paragraphs; the re.match discipline (defect fixed by ae99ec4), a non-DOTALL dot, first-match-wins and a stale cache are rejected by TLC in every run. The expected results printed by TLC are replayed on the real code through create(), text parsing with multi-line Files fields, Files re-assignment (cache) and find_files_paragraph under literal concretizations chosen to hit re.escape and flags; random Unicode histories are validated by TLC against the reference. One paragraph object is also driven through error-path histories (a query that raised the format error, further queries, Files set to a legal value and back) from the closed cache model, and lists whose joined text coincides (['a\\nb'] vs ['a','b'], blank, no separator, '|') are translated in both orders within the process from the memo model; a cache key stored before translation and a memo keyed by the joined text are rejected by TLC.",
-    note="Small-scope: bounds above; concretization of literal symbols is sampled (seeded). Patterns containing whitespace (LF, blanks) are only reachable through globs_to_re(list) and are judged there (globs_to_re(ps).fullmatch(name)). Unspecified: lists with an empty pattern, the empty list, find on documents with an ill-formed paragraph (ValueError or last well-formed match). Sizes beyond what TLC scans (patterns up to 4097+ characters, names to 64 KiB, 200 patterns, 1000 paragraphs) are reached by the block and filler arguments of harness/size_c16.py (the block argument is itself model-checked for L = 2, 3). Trusted: TLC, the 1:1 renaming of literal code points, those two arguments, the projection (bool of matches(), identity index of the returned paragraph).",
+    note="Small-scope: bounds above; concretization of literal symbols is sampled (seeded). Patterns containing whitespace (LF, blanks) are only reachable through globs_to_re(list) and are judged there (globs_to_re(ps).fullmatch(name)). Unspecified: lists with an empty pattern, the empty list, find on documents with an ill-formed paragraph (ValueError or last well-formed match). Sizes beyond what TLC scans (patterns up to 4097+ characters, names to 64 KiB, 200 patterns, 1000 paragraphs) are reached by the block and filler arguments of harness/size_c16.py (the block argument is itself model-checked for L = 3). Trusted: TLC, the 1:1 renaming of literal code points, those two arguments, the projection (bool of matches(), identity index of the returned paragraph).",
     design="5 (C16)")
 
 W = int(os.environ.get("VERIF_TLC_WORKERS", "8"))
@@ -921,7 +921,7 @@ def run(ctx):
         "unspecified: lists with an empty pattern, the empty list; "
         "find_files_paragraph on a document with an ill-formed paragraph may raise ValueError or return the last well-formed match",
         "size-stressed concretizations inherit TLC's expectation of the abstract case by the block argument (model-checked for "
-        "L = 2, 3: BlockInvariance) and the filler argument (a pattern starting with a literal no name starts with never matches)",
+        "L = 3: BlockInvariance) and the filler argument (a pattern starting with a literal no name starts with never matches)",
         "trusted: TLC, the renaming, the projections bool(matches()) and identity index of the returned paragraph",
     ]
     from debian import copyright as C   # noqa: F401  (import errors are machinery failures)
@@ -1011,8 +1011,8 @@ def run(ctx):
     routes = ["prog", "text", "prog-set", "lines"]
     n_lists = n_pairs = 0
     sampled = set()
-    size_every, size_phase = (22, 3) if quick else (4, 1)     # one size-stressed concretization per that many cases
-    n_size, n_huge, max_huge = [0], [0], (4 if quick else 40)
+    size_every, size_phase = (22, 3) if quick else (6, 1)     # one size-stressed concretization per that many cases
+    n_size, n_huge, max_huge = [0], [0], (4 if quick else 20)
     for ename, names in (emissions if "match" in LEGS else []):
         cases = res[ename].printed.get("CASE", [])
         if not cases or not all(isinstance(x, dict) and "ps" in x for x in cases):
@@ -1383,7 +1383,7 @@ def run(ctx):
 
     t_cache = time.time()
     # ---- 5. code -> spec: recorded histories validated by TLC
-    ntr, nops = (220, 18) if quick else (4000, 30)
+    ntr, nops = (220, 18) if quick else (3000, 30)
     big_every = 20 if quick else 12
     traces = []
     skipped = 0
